@@ -99,7 +99,7 @@ c.invariant(1, "implies('user-agent' not in header_keys, ghost.ua_put == old(gho
 c.ensures("ghost.skip_host == old(has_lower_key(headers, 'host')) and ghost.skip_ae == old(has_lower_key(headers, 'accept-encoding'))",
           "automatic-Host-and-Accept-Encoding-suppressed-exactly-when-the-caller-supplied-them")
 c.ensures("implies(old(not has_lower_key(headers, 'user-agent')), ghost.ua_put == old(ghost.ua_put) + 1)", "automatic-User-Agent-when-the-caller-has-none")
-c.site_assert("HTTPConnection.putheader#4", "not has_lower_key(caller_headers, 'user-agent')", "automatic-User-Agent-only-when-the-caller-has-none")
+c.site_assert("HTTPConnection.putheader#lit:User-Agent", "not has_lower_key(caller_headers, 'user-agent')", "automatic-User-Agent-only-when-the-caller-has-none")
 c.tag("C10", "automatic-Host-and-Accept-Encoding-suppressed-exactly-when-the-caller-supplied-them", "automatic-User-Agent-when-the-caller-has-none", "automatic-User-Agent-only-when-the-caller-has-none",
       "automatic-user-agent-line-when-the-caller-has-none")
 c.props.add("C10")
